@@ -166,7 +166,13 @@ fn judge_thread(p: &Puppet, e: &Expect, cb: &[u8], stack_start: u64, stack_len: 
 }
 
 /// One puppet with the given register files (one thread each); returns failures.
+/// `optmode`: 0 default options; 1 size limit 0 (always exceeded) with the LAST thread blamed; 2 the same
+/// plus stack sanitising and skip-unreferenced; 3 size limit 0 with a thread in the middle blamed.
 fn run_regfiles(files: &[RegFile], null_sp_threads: usize) -> (Value, Vec<(String, String)>, u64) {
+    run_regfiles_opt(files, null_sp_threads, 0)
+}
+
+fn run_regfiles_opt(files: &[RegFile], null_sp_threads: usize, optmode: u8) -> (Value, Vec<(String, String)>, u64) {
     let mut p = Puppet::spawn();
     let mut exp = Vec::new();
     for (i, rf) in files.iter().enumerate() {
@@ -190,9 +196,27 @@ fn run_regfiles(files: &[RegFile], null_sp_threads: usize) -> (Value, Vec<(Strin
         exp.push(Expect { tid, kind: Kind::Spin, gpr: [0; 16], xmm: [0; 16], mxcsr: 0, cw: 0, page: p.threads[t].page, skipped: true, dev: Some((RSP, 100 + k)) });
     }
     p.quiesce();
-    let case = json!({"files": files.iter().map(|f| json!([f.kind.name(), f.dev.map(|d| json!([d.0, d.1]))])).collect::<Vec<_>>(), "null_sp_threads": null_sp_threads});
+    let case = json!({"files": files.iter().map(|f| json!([f.kind.name(), f.dev.map(|d| json!([d.0, d.1]))])).collect::<Vec<_>>(), "null_sp_threads": null_sp_threads, "optmode": optmode});
     let mut fails = Vec::new();
-    let bytes = match dump_mem(p.pid, &DumpOpts::default()) {
+    let mut o = DumpOpts::default();
+    let live: Vec<i32> = exp.iter().filter(|e| !e.skipped).map(|e| e.tid).collect();
+    match optmode {
+        1 | 2 => {
+            o.size_limit = Some(0);
+            o.blamed = live.last().copied();
+            if optmode == 2 {
+                o.sanitize = true;
+                o.skip_unref = true;
+                o.principal = Some(exp[0].page as usize + 8);
+            }
+        }
+        3 => {
+            o.size_limit = Some(0);
+            o.blamed = live.get(live.len() / 2).copied();
+        }
+        _ => {}
+    }
+    let bytes = match dump_mem(p.pid, &o) {
         DumpResult::Ok(b) => b,
         DumpResult::Err(e) => {
             fails.push(("dump-failed".into(), e));
@@ -478,7 +502,7 @@ pub fn run(ctx: &Ctx, rep: &mut Report) {
                     dev: f[1].as_array().map(|d| (d[0].as_u64().unwrap_or(0) as usize, d[1].as_u64().unwrap_or(0) as usize)),
                 })
                 .collect();
-            let (c, fails, _) = run_regfiles(&files, case["null_sp_threads"].as_u64().unwrap_or(0) as usize);
+            let (c, fails, _) = run_regfiles_opt(&files, case["null_sp_threads"].as_u64().unwrap_or(0) as usize, case.get("optmode").and_then(|o| o.as_u64()).unwrap_or(0) as u8);
             for (k, m) in fails {
                 rep.violation(&k, &m, c.clone());
             }
@@ -488,7 +512,7 @@ pub fn run(ctx: &Ctx, rep: &mut Report) {
     }
     T0.with(|_| ());
     // work items
-    let mut items: Vec<(Vec<RegFile>, usize)> = Vec::new();
+    let mut items: Vec<(Vec<RegFile>, usize, u8)> = Vec::new();
     // (b) all single deviations for spin threads, ~48 per puppet
     let mut devs: Vec<RegFile> = vec![RegFile { kind: Kind::Spin, dev: None }, RegFile { kind: Kind::Block, dev: None }];
     for dim in 0..34usize {
@@ -509,8 +533,15 @@ pub fn run(ctx: &Ctx, rep: &mut Report) {
             }
         }
     }
-    for chunk in devs.chunks(40) {
-        items.push((chunk.to_vec(), 0));
+    for (ci, chunk) in devs.chunks(40).enumerate() {
+        // each batch of register files also runs under one of the option modes that touch the
+        // thread-list writer's position logic (40 threads: positions below and above 20)
+        items.push((chunk.to_vec(), 0, 0));
+        items.push((chunk.to_vec(), 0, 1 + (ci % 3) as u8));
+        if ctx.tier.is_thorough() {
+            items.push((chunk.to_vec(), 0, 1 + ((ci + 1) % 3) as u8));
+            items.push((chunk.to_vec(), 0, 1 + ((ci + 2) % 3) as u8));
+        }
     }
     // (a) completeness shapes
     let ns: Vec<usize> = if ctx.tier.is_thorough() { vec![1, 2, 3, 4, 5, 8, 13, 20, 21, 22, 32, 48, 63, 64] } else { vec![1, 2, 3, 8, 21, 64] };
@@ -521,13 +552,17 @@ pub fn run(ctx: &Ctx, rep: &mut Report) {
                 if n + nulls > 64 || (nulls > 0 && mix == 1 && !ctx.tier.is_thorough()) {
                     continue;
                 }
-                items.push((files.clone(), nulls));
+                items.push((files.clone(), nulls, 0));
+                if n >= 21 {
+                    items.push((files.clone(), nulls, 1));
+                    items.push((files.clone(), nulls, 3));
+                }
             }
         }
     }
-    let results = par_map(&items, |_, (files, nulls)| run_regfiles(files, *nulls));
+    let results = par_map(&items, |_, (files, nulls, om)| run_regfiles_opt(files, *nulls, *om));
     let mut contexts_checked = 0;
-    for ((files, nulls), (case, fails, checked)) in items.iter().zip(results) {
+    for ((files, nulls, _), (case, fails, checked)) in items.iter().zip(results) {
         rep.evaluations += 1;
         contexts_checked += checked;
         rep.nontrivial += files.iter().filter(|f| f.dev.is_some()).count() as u64 + (*nulls > 0) as u64;
